@@ -243,12 +243,17 @@ func (conn *Conn) send(call *Call) {
 	err := conn.codec.WriteRequest(&ctx, call.Args)
 	if err != nil {
 		conn.mutex.Lock()
-		delete(conn.pending, seq)
-		if call.upgrade.Stream == openStream {
-			delete(conn.streams, seq)
+		// Only the path that removes the call from the pending table may
+		// complete it: the reader may already have done so.
+		registered := isStreaming || conn.pending[seq] == call
+		if registered {
+			delete(conn.pending, seq)
+			if call.upgrade.Stream == openStream {
+				delete(conn.streams, seq)
+			}
 		}
 		conn.mutex.Unlock()
-		if call != nil {
+		if registered {
 			call.Error = err
 			call.done()
 		}
@@ -283,7 +288,8 @@ func (conn *Conn) recv() {
 	if err == io.EOF {
 		err = ErrShutdown
 	}
-	for _, call := range conn.pending {
+	for seq, call := range conn.pending {
+		delete(conn.pending, seq)
 		call.Error = err
 		call.done()
 	}
